@@ -200,7 +200,14 @@ def highlevel(chk, rng, quick):
                 elif act == "step":
                     dt = float(rng.choice([0.5, 0.125, 0.03125, 0.3]))
                     vm = inter.lag_grid_velocity_mismatch_field.copy()
+                    frozen = [a.tobytes() for a in (inter.lag_grid_velocity_mismatch_field, inter.lag_grid_forcing_field, inter.lag_grid_flow_velocity_field,
+                                                    inter.forcing_grid.position_field, inter.forcing_grid.velocity_field)]
                     inter.time_step(dt)
+                    now = [a.tobytes() for a in (inter.lag_grid_velocity_mismatch_field, inter.lag_grid_forcing_field, inter.lag_grid_flow_velocity_field,
+                                                 inter.forcing_grid.position_field, inter.forcing_grid.velocity_field)]
+                    if now != frozen:
+                        errs.append("time_step(dt) changed the velocity mismatch / marker force / marker kinematics: it must only integrate the "
+                                    "mismatch of the last evaluation")
                     pm_ref = pm_ref + dt * vm
                     clock += dt
                 elif act == "move":
